@@ -1,2 +1,3 @@
 pub mod c01;
 pub mod c24;
+pub mod hist;
